@@ -87,8 +87,11 @@ func (n *normalizer) prop(p *sProp, v *jval, path string) (*jval, error) {
 	if err != nil || nv == nil {
 		return nv, err
 	}
-	if len(p.path) == 0 && nv.kind == jObj && len(nv.members) == 0 {
+	if p.isExposedOneof() && nv.kind == jObj && len(nv.members) == 0 {
 		return nil, nil // exposed oneof with nothing set leaves no trace in the message
+	}
+	if fd := p.final(); fd != nil && presOf(fd) == "imp" && isZeroJSON(p.field, nv) {
+		return nil, nil // proto3 implicit presence: the zero value *is* absence
 	}
 	return nv, nil
 }
@@ -100,6 +103,7 @@ func (n *normalizer) oneof(root *sRoot, v *jval, path string) (*jval, error) {
 	var typ *string
 	var key string
 	var val *jval
+	sawKey := false
 	for _, m := range v.members {
 		if m.key == "!type" {
 			if m.val.kind != jStr {
@@ -113,6 +117,7 @@ func (n *normalizer) oneof(root *sRoot, v *jval, path string) (*jval, error) {
 		if p == nil {
 			return nil, nfail("unknown-key", path+"."+m.key)
 		}
+		sawKey = true
 		if m.val.kind == jNull {
 			continue
 		}
@@ -123,7 +128,8 @@ func (n *normalizer) oneof(root *sRoot, v *jval, path string) (*jval, error) {
 	}
 	out := &jval{kind: jObj}
 	if val == nil {
-		if typ == nil {
+		if typ == nil || sawKey {
+			// a member that is explicitly null selects nothing (and suppresses the "!type"-only form)
 			return out, nil
 		}
 		p := root.prop(*typ)
@@ -284,7 +290,7 @@ func (n *normalizer) field(f *sField, v *jval, path string) (*jval, error) {
 			return jnum("0"), nil
 		}
 		if f.kind == "float32" {
-			if x > math.MaxFloat32 || x < -math.MaxFloat32 {
+			if math.IsInf(float64(float32(x)), 0) {
 				return nil, nfail("range:float32", path)
 			}
 			return jnum(strconv.FormatFloat(float64(float32(x)), 'g', -1, 32)), nil
@@ -417,9 +423,6 @@ func (n *normalizer) any(f *sField, v *jval, path string) (*jval, error) {
 	for _, m := range v.members {
 		switch m.key {
 		case "!type":
-			if typ != nil {
-				return nil, nfail("dup-key", path+".!type")
-			}
 			if m.val.kind != jStr {
 				return nil, nfail("wrong-type:!type", path)
 			}
@@ -439,7 +442,7 @@ func (n *normalizer) any(f *sField, v *jval, path string) (*jval, error) {
 	if f.kind == "anypb" && n.mode != "p" {
 		return nil, nfail("any-pb-without-proto", path)
 	}
-	outVal := val.clone()
+	outVal := opaque(val)
 	if n.mode == "p" {
 		md, ok := n.ts.byProto[protoFullName(typ.str)]
 		if !ok {
@@ -519,4 +522,87 @@ func keysOf(v *jval) []string {
 		ks = append(ks, m.key)
 	}
 	return ks
+}
+
+
+// opaque turns a JSON value into a single token carrying its compact text (a j5 Any stores the
+// value bytes verbatim, so the comparison is textual, not structural).
+func opaque(v *jval) *jval { return &jval{kind: jNum, raw: string(v.bytes())} }
+
+// postEncoded prepares the re-encoded document for comparison with canonDoc's output: the value
+// of a j5 Any becomes an opaque token, and the `{}` the encoder writes for an *unset* exposed oneof
+// that was inlined from a flattened object is dropped (it denotes absence).
+func postEncoded(root *sRoot, v *jval, mode string) {
+	if v.kind != jObj || root.broken {
+		return
+	}
+	keep := v.members[:0]
+	for _, m := range v.members {
+		p := root.prop(m.key)
+		if p == nil {
+			keep = append(keep, m)
+			continue
+		}
+		if p.isExposedOneof() && m.val.kind == jObj && len(m.val.members) == 0 {
+			continue
+		}
+		postEncodedField(p.field, m.val, mode)
+		keep = append(keep, m)
+	}
+	v.members = keep
+}
+
+func postEncodedField(f *sField, v *jval, mode string) {
+	switch f.kind {
+	case "object", "oneof":
+		postEncoded(f.ref(), v, mode)
+	case "array":
+		for _, e := range v.elems {
+			postEncodedField(f.item, e, mode)
+		}
+	case "map":
+		if v.kind == jObj {
+			for _, m := range v.members {
+				postEncodedField(f.item, m.val, mode)
+			}
+		}
+	case "anyj5":
+		if v.kind == jObj {
+			for i := range v.members {
+				if v.members[i].key == "value" {
+					v.members[i].val = opaque(v.members[i].val)
+				}
+			}
+		}
+	case "anypb":
+		if v.kind == jObj {
+			t, val := v.get("!type"), v.get("value")
+			if t != nil && val != nil && t.kind == jStr {
+				if md, ok := f.ts.byProto[protoFullName(t.str)]; ok {
+					postEncoded(f.ts.rootOf(md), val, mode)
+				}
+			}
+		}
+	}
+}
+
+
+// isZeroJSON: the canonical spelling nv denotes the proto3 zero value of a scalar field.
+func isZeroJSON(f *sField, nv *jval) bool {
+	switch f.kind {
+	case "string", "key", "bytes":
+		return nv.kind == jStr && nv.str == ""
+	case "bool":
+		return nv.kind == jFalse
+	case "int32", "uint32", "float32", "float64":
+		return nv.kind == jNum && nv.raw == "0"
+	case "int64", "uint64":
+		return nv.kind == jStr && nv.str == "0"
+	case "enum":
+		if e := f.wireEnum(); e != nil && nv.kind == jStr {
+			n, ok := e.byShort(nv.str)
+			return ok && n == 0
+		}
+	}
+	return false
 }
